@@ -2050,13 +2050,23 @@ class Compiler:
         append = identifier("append_%s" % prefix, name)
         return stream, append
 
+    @staticmethod
+    def _backup_identifiers(names):
+        # A name may hold characters that an identifier may not ("a-b");
+        # the position keeps "a-b" and "a_b" apart.
+        for i, name in enumerate(names):
+            suffix = "%d_%s" % (i, mangle(name))
+            yield (name,
+                   identifier("backup" + suffix, id(names)),
+                   identifier("global" + suffix, id(names)))
+
     def _enter_assignment(self, names):
-        for name in names:
+        for name, backup, global_ in self._backup_identifiers(names):
             yield from template(
                 "BACKUP = get(KEY, __marker)\n"
                 "GLOBAL = rcontext.get(KEY, __marker)",
-                BACKUP=identifier("backup_%s" % name, id(names)),
-                GLOBAL=identifier("global_%s" % name, id(names)),
+                BACKUP=backup,
+                GLOBAL=global_,
                 KEY=ast.Constant(str(name)),
             )
 
@@ -2064,7 +2074,7 @@ class Compiler:
         # If the binding hidden by the local was the global one and it
         # has been redefined in the meantime, the new definition is the
         # one that becomes visible again.
-        for name in names:
+        for name, backup, global_ in self._backup_identifiers(names):
             yield from template(
                 "if BACKUP is __marker:\n"
                 "    del econtext[KEY]\n"
@@ -2073,7 +2083,7 @@ class Compiler:
                 "    econtext[KEY] = rcontext[KEY]\n"
                 "else:\n"
                 "    econtext[KEY] = BACKUP",
-                BACKUP=identifier("backup_%s" % name, id(names)),
-                GLOBAL=identifier("global_%s" % name, id(names)),
+                BACKUP=backup,
+                GLOBAL=global_,
                 KEY=ast.Constant(str(name)),
             )
